@@ -4,6 +4,7 @@ import (
 	"fmt"
 	"go/token"
 	"go/types"
+	"os"
 	"path"
 	"path/filepath"
 	"sort"
@@ -15,6 +16,8 @@ import (
 )
 
 const tokenLSS = token.LSS
+
+var debugOn = os.Getenv("GOSYM_DEBUG") != ""
 
 const rtPkg = "github.com/itchio/wharf/zzverif/rt"
 const modelPkg = "github.com/itchio/wharf/zzverif/model"
@@ -184,6 +187,9 @@ func registerNatives(p *Program) {
 		if r.concreteMode {
 			r.observed = append(r.observed, "obs:"+str(a[0])+"="+r.formatArgs(g, a[1].(Slice)))
 		}
+		if debugOn {
+			fmt.Fprintf(os.Stderr, "[g%d] OBSERVE %s=%s\n", g.id, str(a[0]), r.formatArgs(g, a[1].(Slice)))
+		}
 		return nil
 	})
 	rt("InEngine", func(r *Run, g *Goroutine, a []Value) Value { return true })
@@ -221,6 +227,16 @@ func registerNatives(p *Program) {
 			return nil
 		}
 		r.hooks = append(r.hooks, opHook{at: r.visibleOps + n, fn: a[1]})
+		return nil
+	})
+	rt("SchedExplore", func(r *Run, g *Goroutine, a []Value) Value {
+		r.schedOff = !a[0].(bool)
+		return nil
+	})
+	rt("Debug", func(r *Run, g *Goroutine, a []Value) Value {
+		if debugOn {
+			fmt.Fprintf(os.Stderr, "[g%d] %s\n", g.id, str(a[0]))
+		}
 		return nil
 	})
 	rt("VisibleOps", func(r *Run, g *Goroutine, a []Value) Value { return uint64(r.visibleOps) })
